@@ -74,6 +74,7 @@ CONFIGS = {
                  dict(MULTI, Jobs=[1, 2], QKinds=['fifo', 'prio'], QOf={1: 1, 2: 2}, NoBind=True), 'thorough'),
     'bindctx': ({'ctl': [op(B), op(A, job=1), op(B), op(WU)], 'x': [op(CC)]},
                 dict(MULTI, Jobs=[1], QKinds=['fifo', 'fifo'], QOf={1: 1}, NoBind=True, WithCtx=True), 'thorough'),
+    'stopwuf': ({'c1': [op(A, job=1), op(A, job=2)], 'ctl': [op(S)], 'x': [op(WU), op(WU)]}, {}, 'thorough'),
     'ratio': ({'c1': [op(A, job=1), op(A, job=2), op(A, job=3), op(WU)]}, {'Jobs': [1, 2, 3], 'Nodes': [1, 2, 3], 'PGSeq': ['pg1', 'pg2', 'pg3'], 'Conc0': 3, 'Ratio': 100}, 'thorough'),
 }
 
